@@ -55,6 +55,8 @@ inductive Entry
   | none                              -- no entity file: `EntityWithName` fails
   | noKey                             -- entity without public key
   | key (pk : Nat)                    -- long-term public key of key pair `pk`
+  | own (pk : Nat)                    -- an entity that also holds a PRIVATE key: the accessory's own identity, which
+                                      -- lives in the same database — not a controller (F16 repair)
 deriving DecidableEq, Repr
 
 abbrev Store := Nat → Entry
@@ -116,6 +118,7 @@ def stepR (fixed renew : Bool) (c : Nat) (db : Store) (st : St) : In → St × O
           match db name with
           | .none => (st0, .http500)
           | .noKey => (st0, .http500)
+          | .own _ => (st0, .http500)
           | .key pk =>
             if sigOk c st name pk sig then
               ({ st0 with installed := some st.other, instEpoch := st.epoch }, .tlv 4 none false false)
